@@ -241,7 +241,9 @@ def shape_path(shape, base, i):
     if shape == "file":
         return j("x%s.wav" % n)
     if shape == "sub_space":
-        return j("sub", "x y%s.wav" % n)
+        # blanks inside names, at the start of the first component and at the end of the last one (a stored path string is a path,
+        # not free text to be trimmed)
+        return j(" sub", "x y%s.wav " % n)
     if shape == "unicode":
         # a precomposed (NFC) directory name and a decomposed (NFD, as macOS file dialogs produce) file name: path strings are
         # stored and relocated as given, never normalised
